@@ -102,7 +102,41 @@ notes.update({
  'C19c':"before-hook list uses Result::and: the rest of the list runs although an earlier hook failed",
  'C20c':"round robin picks the backend by peeking and advances the cursor after the await: overlapping calls all go to the same backend",
 })
+notes.update({
+ 'C01d':"Clone gives each handle its own id block; a clone of a clone overlaps its grandparent's block: two live handles issue the same ids, a late reply for one completes the other's call",
+ 'C02d':"the 'skip abandoned queued request' loop uses try_recv and returns Pending on Empty: no waker is registered on the request queue, the next call wakes nobody",
+ 'C03d':"a failed write of the Cancel message is only logged and the dispatch carries on: transmitted, abandoned, no Cancel, connection not lost",
+ 'C04d':"the at-capacity check moved into ensure_writeable, which cancellations also pass through: a client at max_in_flight_requests stops sending Cancel",
+ 'C05d':"the age of the deadline queue is read before an idle queue is replaced: the first call after an idle period is capped by 730 d minus the idle time (fails early / at once after 800 idle days)",
+ 'C06d':"MaxRequests waits for sink readiness before every read, also far below the limit: while the sink is not ready no expiry is processed",
+ 'C07d':"span.set_context skipped when the request's trace id is zero: behind an untraced caller a traced server's context::current() loses the request deadline (now + 10 s instead)",
+ 'C08d':"a request whose deadline has already passed when it is read is skipped like a duplicate: no handler is offered for it",
+ 'C09d':"server: a flush failure after the client's half-close with nothing in flight is only logged, the stream ends cleanly and the last response is lost",
+ 'C10d':"client: on read end-of-stream the dispatch first waits for poll_close: with the write side backed up it neither stops nor fails the calls",
+ 'C11d':"client complete_request returns early when the caller is already gone and leaves the deadline timer armed",
+ 'C12d':"server pump flushes only after a handler response: a refusal written by the limiter is never flushed on a buffering transport",
+ 'C13d':"the open-channel table is keyed by the key's hash: two unequal keys with equal hashes share one count",
+ 'C14d':"server: at half-close with nothing in flight a Pending flush falls through and the stream ends with the response unflushed",
+ 'C15d':"tcp::connect / unix::connect ignore config_mut(): a non-default framing configured on both ends is honoured by the listener only",
+ 'C16d':"deadline timer armed before the duplicate check AND poll_expired expects every timer to have an entry: one duplicate of an in-flight id panics the channel when its timer fires",
+ 'C17d':"(not a C17 violation: RequestName::name() is untouched) the span's otel.name is recorded inside the handler future, so a request aborted before its first poll keeps the placeholder span name",
+ 'C18d':"client: a caller-supplied trace id of 0 is replaced by a random id",
+ 'C19d':"HookThenServe clamps the deadline a before-hook set to the request's: a hook that extends the deadline is undone for everything behind the wrapper",
+ 'C20d':"consistent hash takes the index from the hash's high bits for power-of-two backend counts: with exactly one backend the shift is by 64 (panic)",
+})
 strength={
+ 'C01d':"handle topologies Root / Middle / Grand (the original, a clone that has been cloned, the grandchild)",
+ 'C03d':"transient Send/Ready/Flush faults in C03's configurations",
+ 'C04d':"chains whose clients have max_in_flight_requests = 1",
+ 'C05d':"connections that have been idle for 2 / 800 days before the first call (start_age_ms)",
+ 'C06d':"the known-finding discriminator now requires the limit to be REACHED (reported in-flight count >= limit); before, any 'limit configured + sink not ready + no read' poll was filed under the known signature - which would have hidden this change",
+ 'C07d':"OpenTelemetry cells with an untraced head caller (only server-side tasks polled under the subscriber) and the all-zero trace id",
+ 'C12d':"Coupled transport transmits only what it was asked to flush (poll_flush / poll_close / poll_ready on a full buffer), FlushFrees is never drained by the environment, Coupled cap 2 in C12; new rule C12-refusal-not-delivered",
+ 'C13d':"the keys of the BFS are unequal but hash alike",
+ 'C15d':"the shipped tcp and unix socket transports, six framing configurations set alike on both ends, both codecs, real loopback / unix sockets",
+ 'C16d':"every sequence of <= 5 (thorough 6) actions on one id out of {held request with 1/10/30 s deadline, answered request, cancel, wait 2 s, wait 40 s}, then a probe",
+ 'C17d':"none: outside C17's observables (arguments, context, result, RequestName::name())",
+ 'C18d':"caller-supplied trace ids now include 0 and u128::MAX; the engine reports a violation that reproduces by signature even when the two replays differ (the change draws a random id)",
  'C02c':"NOT counted as a miss: the sink in the demonstration breaks futures::Sink::poll_ready's contract (and C02's stated environment: capacity returning wakes the task); a FlushFrees transport flavour that frees room in poll_flush AND wakes was added - with it the change costs one extra poll and nothing else",
  'C04c':"chain harness gained own_clients (each handle owned by the future that uses it, nothing keeps it alive)",
  'C05c':"abandonment added to C05's alphabet and scripted (one of two calls with different deadlines abandoned)",
